@@ -599,94 +599,192 @@ func c03LMTPCommit(c *Check) {
 		return
 	}
 	info := rb.Info
-	// the failure flag: a bool field of the per-target delivery struct set to true in BodyNonAtomic
+	// the failure flag: a bool field of the per-target delivery struct set to true in BodyNonAtomic or in a method of
+	// that struct it calls
 	var flag *types.Var
-	ast.Inspect(rb.FI.Decl.Body, func(n ast.Node) bool {
-		if as, ok := n.(*ast.AssignStmt); ok && len(as.Lhs) == 1 && len(as.Rhs) == 1 {
-			if fv := fieldOf(info, as.Lhs[0]); fv != nil {
-				if tv, ok := info.Types[as.Rhs[0]]; ok && tv.Value != nil && tv.Value.String() == "true" {
-					if b, ok := fv.Type().Underlying().(*types.Basic); ok && b.Kind() == types.Bool {
-						if nt := fieldOwner(p, fv); nt != nil && nt.Obj().Name() == "delivery" {
-							flag = fv
+	findFlag := func(inf *types.Info, body ast.Node) {
+		ast.Inspect(body, func(n ast.Node) bool {
+			if as, ok := n.(*ast.AssignStmt); ok && len(as.Lhs) == 1 && len(as.Rhs) == 1 {
+				if fv := fieldOf(inf, as.Lhs[0]); fv != nil {
+					if tv, ok := inf.Types[as.Rhs[0]]; ok && tv.Value != nil && tv.Value.String() == "true" {
+						if b, ok := fv.Type().Underlying().(*types.Basic); ok && b.Kind() == types.Bool {
+							if nt := fieldOwner(p, fv); nt != nil && nt.Obj().Name() == "delivery" {
+								flag = fv
+							}
 						}
 					}
 				}
 			}
+			return true
+		})
+	}
+	findFlag(info, rb.FI.Decl.Body)
+	if flag == nil {
+		for _, call := range callsIn(rb.FI.Decl.Body) {
+			if fn := callee(info, call); fn != nil && fn.Pkg() == rb.FI.Obj.Pkg() {
+				if d := p.DeclOf(fn); d != nil && d.Decl.Body != nil {
+					findFlag(d.Info(), d.Decl.Body)
+				}
+			}
 		}
-		return true
-	})
+	}
 	if flag == nil {
 		c.Hold("R3b", "BodyNonAtomic:failure-recorded", rb.FI.Decl.Pos(), false, "the per-recipient body path does not record which target deliveries did not get the body; its callers always Commit, so a message rejected by a body check (every recipient refused) is committed to every target")
 		return
 	}
-	setsFlagOn := func(n ast.Node, obj types.Object) bool {
+	storesFlag := func(inf *types.Info, n ast.Node, isTarget func(ast.Expr) bool) bool {
 		return nodeAssigns(n, func(l, rhs ast.Expr) bool {
-			if fieldOf(info, l) != flag || rhs == nil {
+			if fieldOf(inf, l) != flag || rhs == nil {
 				return false
 			}
-			s := ast.Unparen(l).(*ast.SelectorExpr)
-			tv, ok := info.Types[rhs]
-			return objOf(info, s.X) == obj && ok && tv.Value != nil && tv.Value.String() == "true"
+			sx := ast.Unparen(l).(*ast.SelectorExpr)
+			tv, ok := inf.Types[rhs]
+			return isTarget(sx.X) && ok && tv.Value != nil && tv.Value.String() == "true"
 		})
 	}
-	// (i) every early return of BodyNonAtomic (before the fan-out) goes through a closure that marks every delivery
-	markAll := map[types.Object]bool{}
-	ast.Inspect(rb.FI.Decl.Body, func(n ast.Node) bool {
-		if as, ok := n.(*ast.AssignStmt); ok && len(as.Lhs) == 1 && len(as.Rhs) == 1 {
-			if fl, ok := as.Rhs[0].(*ast.FuncLit); ok {
-				for _, rs := range rangesIn(fl.Body, func(rs *ast.RangeStmt) bool { return isField(info, rs.X, "msgpipelineDelivery", "deliveries") }) {
-					marks := false
-					for _, st := range rs.Body.List {
-						if setsFlagOn(st, objOf(info, rs.Value)) {
-							marks = true
-						}
-					}
-					if marks {
-						markAll[objOf(info, as.Lhs[0])] = true
-					}
-				}
-			}
+	// marksVia: the call is a method call on the target (isTarget(receiver)) of a method that sets the flag of its
+	// receiver on every path
+	marksVia := func(inf *types.Info, call *ast.CallExpr, isTarget func(ast.Expr) bool) bool {
+		rcv := callRecv(call)
+		if rcv == nil || !isTarget(rcv) {
+			return false
 		}
-		return true
-	})
-	callsMarkAll := func(pt Pt) bool {
-		for _, call := range callsAt(pt.Node()) {
-			if id, ok := call.Fun.(*ast.Ident); ok && markAll[objOf(info, id)] {
+		fn := callee(inf, call)
+		if fn == nil || fn.Pkg() != rb.FI.Obj.Pkg() {
+			return false
+		}
+		d := p.DeclOf(fn)
+		if d == nil || d.Decl.Body == nil || d.Decl.Recv == nil || len(d.Decl.Recv.List) != 1 || len(d.Decl.Recv.List[0].Names) != 1 {
+			return false
+		}
+		di := d.Info()
+		recvO := di.Defs[d.Decl.Recv.List[0].Names[0]]
+		g := c.CtxOf(d)
+		sets := func(q Pt) bool {
+			return q.Node() != nil && storesFlag(di, q.Node(), func(e ast.Expr) bool { return objOf(di, e) == recvO })
+		}
+		_, escapes := g.F.Reach(Query{From: g.Entry(), Inclusive: true, Target: g.F.IsExitPt, Avoid: sets})
+		return !escapes
+	}
+	marksAt := func(inf *types.Info, n ast.Node, isTarget func(ast.Expr) bool) bool {
+		if n == nil {
+			return false
+		}
+		if storesFlag(inf, n, isTarget) {
+			return true
+		}
+		for _, call := range callsAt(n) {
+			if marksVia(inf, call, isTarget) {
 				return true
 			}
 		}
 		return false
 	}
-	// the fan-out loop
-	var fan *ast.RangeStmt
-	for _, rs := range rangesIn(rb.FI.Decl.Body, func(rs *ast.RangeStmt) bool { return isField(info, rs.X, "msgpipelineDelivery", "deliveries") }) {
-		if posIn(rb.FI.Decl.Body, rs.Pos()) {
-			inLit := false
-			ast.Inspect(rb.FI.Decl.Body, func(x ast.Node) bool {
-				if fl, ok := x.(*ast.FuncLit); ok && posIn(fl, rs.Pos()) {
-					inLit = true
+	isDeliveries := func(inf *types.Info) func(ast.Expr) bool {
+		return func(e ast.Expr) bool { return isField(inf, e, "msgpipelineDelivery", "deliveries") }
+	}
+	// a loop over all target deliveries that marks each of them
+	markAllLoops := func(inf *types.Info, body ast.Node) []*ElemLoop {
+		var out []*ElemLoop
+		for _, l := range elemLoops(inf, body, isDeliveries(inf)) {
+			if !l.Whole {
+				continue
+			}
+			l := l
+			marks := false
+			for _, st := range l.Body.List {
+				ast.Inspect(st, func(x ast.Node) bool {
+					if st2, ok := x.(ast.Stmt); ok && marksAt(inf, st2, l.IsElem) {
+						marks = true
+					}
+					return true
+				})
+			}
+			escape := false
+			inspectNoLit(l.Body, func(x ast.Node) bool {
+				switch b := x.(type) {
+				case *ast.BranchStmt:
+					escape = escape || b.Tok == token.BREAK || b.Tok == token.CONTINUE || b.Tok == token.GOTO
+				case *ast.ReturnStmt:
+					escape = true
 				}
 				return true
 			})
-			if !inLit {
-				fan = rs
+			if marks && !escape {
+				out = append(out, l)
 			}
+		}
+		return out
+	}
+	// (i) every early return of BodyNonAtomic (before the fan-out) passes something that marks every delivery: such a
+	// loop, a closure containing one, or a function of the package containing one
+	markAll := map[types.Object]bool{}
+	ast.Inspect(rb.FI.Decl.Body, func(n ast.Node) bool {
+		if as, ok := n.(*ast.AssignStmt); ok && len(as.Lhs) == 1 && len(as.Rhs) == 1 {
+			if fl, ok := as.Rhs[0].(*ast.FuncLit); ok && len(markAllLoops(info, fl.Body)) > 0 {
+				markAll[objOf(info, as.Lhs[0])] = true
+			}
+		}
+		return true
+	})
+	inlineMarkAll := markAllLoops(info, rb.FI.Decl.Body)
+	callsMarkAll := func(pt Pt) bool {
+		for _, call := range callsAt(pt.Node()) {
+			if id, ok := call.Fun.(*ast.Ident); ok && markAll[objOf(info, id)] {
+				return true
+			}
+			if fn := callee(info, call); fn != nil && fn.Pkg() == rb.FI.Obj.Pkg() && fn != rb.FI.Obj {
+				if d := p.DeclOf(fn); d != nil && d.Decl.Body != nil && len(markAllLoops(d.Info(), d.Decl.Body)) > 0 {
+					return true
+				}
+			}
+		}
+		// completion of an inline mark-all loop
+		for _, l := range inlineMarkAll {
+			for _, d := range rb.F.LoopDone(l) {
+				if d == pt {
+					return true
+				}
+			}
+		}
+		return false
+	}
+	// the fan-out loop: the loop over the deliveries (outside closures) that hands the body to the targets
+	var fan *ElemLoop
+	for _, l := range elemLoops(info, rb.FI.Decl.Body, isDeliveries(info)) {
+		inLit := false
+		ast.Inspect(rb.FI.Decl.Body, func(x ast.Node) bool {
+			if fl, ok := x.(*ast.FuncLit); ok && posIn(fl, l.Stmt.Pos()) {
+				inLit = true
+			}
+			return true
+		})
+		hands := false
+		l := l
+		ast.Inspect(l.Body, func(x ast.Node) bool {
+			if call, ok := x.(*ast.CallExpr); ok && (methodName(call) == "Body" || methodName(call) == "BodyNonAtomic") {
+				hands = true
+			}
+			return true
+		})
+		if !inLit && hands {
+			fan = l
 		}
 	}
 	msg := ""
 	if fan == nil {
 		msg = "undecided: fan-out loop not found"
 	} else {
-		fanStart, _ := rb.F.PtOf(fan.X.Pos())
+		fanStart := rb.F.LoopBodyStart(fan)
 		// a return before the fan-out that does not mark all deliveries
 		early := func(pt Pt) bool {
 			if !rb.F.IsExitPt(pt) {
 				return false
 			}
 			_, ret := rb.F.Exit(pt)
-			return ret != nil && ret.Pos() < fan.Pos()
+			return ret != nil && ret.Pos() < fan.Stmt.Pos()
 		}
-		if path, f := rb.F.Reach(Query{From: rb.Entry(), Inclusive: true, Target: early, Avoid: orPt(callsMarkAll, isPt([]Pt{fanStart}))}); f {
+		if path, f := rb.F.Reach(Query{From: rb.Entry(), Inclusive: true, Target: early, Avoid: orPt(callsMarkAll, isPt(fanStart))}); f {
 			msg = "the body stage can end before the fan-out without marking the target deliveries as failed: " + rb.F.Describe(path)
 		}
 	}
@@ -694,19 +792,16 @@ func c03LMTPCommit(c *Check) {
 	// (ii) atomic target Body failure marks that delivery
 	msg = ""
 	if fan != nil {
-		lv := objOf(info, fan.Value)
 		for _, pt := range rb.F.Points() {
 			nd := pt.Node()
 			if nd == nil || !posIn(fan.Body, nd.Pos()) {
 				continue
 			}
 			for _, call := range callsAt(nd) {
-				if methodName(call) == "Body" && recvObj(info, call) == lv {
+				if methodName(call) == "Body" && callRecv(call) != nil && fan.IsElem(callRecv(call)) {
 					eo := errVarAssigned(info, nd, call)
-					iterEnd := func(q Pt) bool {
-						return (q.B.Stmt == ast.Stmt(fan) && (q.B.Kind == kindRangeLoop || q.B.Kind == kindRangeDone) && q.I == 0) || rb.F.IsExitPt(q)
-					}
-					marks := func(q Pt) bool { return q.Node() != nil && setsFlagOn(q.Node(), lv) }
+					iterEnd := rb.F.IterEnd(fan)
+					marks := func(q Pt) bool { return marksAt(info, q.Node(), fan.IsElem) }
 					if eo == nil {
 						msg = "the error of the target's Body is dropped"
 					} else if path, f := rb.F.ReachRefined(pt, eo, false, false, iterEnd, marks); f {
